@@ -1110,26 +1110,37 @@ class Model:
             node._clear_outputs()
             node._set_model(self)
 
-        for node in self._nodes.values():
-            for _input in node.all_input_nodes():
-                _input._add_output(node)
+        try:
+            for node in self._nodes.values():
+                for _input in node.all_input_nodes():
+                    _input._add_output(node)
 
-        self._node_graph = self._build_node_graph(self._nodes.values())
-        self._var_graph = self._build_var_graph(self._vars.values())
+            self._node_graph = self._build_node_graph(self._nodes.values())
+            self._var_graph = self._build_var_graph(self._vars.values())
 
-        self._sorted_nodes = list(nx.topological_sort(self._node_graph))
+            self._sorted_nodes = list(nx.topological_sort(self._node_graph))
 
-        self._simulation_graph = self._build_simulation_graph(self._nodes.values())
-        self._simulation_nodes = list(nx.topological_sort(self._simulation_graph))
+            self._simulation_graph = self._build_simulation_graph(
+                self._nodes.values()
+            )
+            self._simulation_nodes = list(
+                nx.topological_sort(self._simulation_graph)
+            )
 
-        self._auto_update = True
-        self._seed_nodes = []
+            self._auto_update = True
+            self._seed_nodes = []
 
-        for node in self._sorted_nodes:
-            if node.name.startswith("_model_") and node.name.endswith("_seed"):
-                self._seed_nodes.append(node)
+            for node in self._sorted_nodes:
+                if node.name.startswith("_model_") and node.name.endswith("_seed"):
+                    self._seed_nodes.append(node)
 
-            node.update()
+                node.update()
+        except Exception:
+            # a rejected build releases its nodes, the half-built model may stay
+            # alive through the traceback
+            for node in self._nodes.values():
+                node._unset_model()
+            raise
 
     @staticmethod
     def _build_node_graph(nodes: Iterable[Node]) -> nx.DiGraph:
